@@ -329,6 +329,57 @@ class C14(Prop):
             sessions.close_loop(loop)
 
     @staticmethod
+    def failing_requests_scenario(transport):
+        """failed requests - alone, as notifications and as members of batches in every position - each counted once and
+        charged the base error cost plus the cost the error carries"""
+        from harness import sessions
+        from aiorpcx import session, RPCError
+        loop = sessions.new_loop()
+        try:
+            class S(session.RPCSession):
+                max_errors = 100000
+                cost_hard_limit = 0
+                cost_decay_per_sec = 0
+
+                async def handle_request(self, request):
+                    if request.method == 'fail':
+                        raise RPCError(7, 'no', cost=float(request.args[0]) if request.args else 0.0)
+                    if request.method == 'boom':
+                        raise ValueError('boom')
+                    return 1
+            proto, ft, s = sessions.attach(S, 'server', transport)
+
+            def req(m, i, *a):
+                return '{"jsonrpc":"2.0","method":"%s","params":%s%s}' % (m, list(a), '' if i is None else ',"id":%d' % i)
+            F, B, O = ('fail', 15.5), ('boom', 0), ('ok', 0)
+            shapes = [[F], [B], [O], [('fail', 0)], [F, O], [O, F], [F, F, F], [F, B, O], [O, O, F, O], [('fail', 15.5)] * 10, [B, B], [F, 'nF', O], ['nF'], ['nB', F]]
+            steps = []
+
+            async def main():
+                await sessions.settle(3)
+                i = 100
+                for shape in shapes:
+                    members, due_n, due_extra = [], 0, 0.0
+                    for m in shape:
+                        note = isinstance(m, str)
+                        name, extra = (('fail', 15.5) if m == 'nF' else ('boom', 0)) if note else m
+                        i += 1
+                        members.append(req(name, None if note else i, *([extra] if name == 'fail' else [])))
+                        if name != 'ok':
+                            due_n += 1
+                            due_extra += extra if name == 'fail' else 0
+                    text = members[0] if len(members) == 1 else '[' + ','.join(members) + ']'
+                    e0, c0 = s.errors, s.cost
+                    proto.data_received(text.encode() + b'\n')
+                    await asyncio.sleep(0.5)
+                    steps.append({'shape': [m if isinstance(m, str) else m[0] for m in shape], 'failed': due_n, 'd_errors': s.errors - e0,
+                                  'd_cost': s.cost - c0, 'due_error_cost': due_n * s.error_base_cost + due_extra})
+                return {'steps': steps}
+            return loop.run_until_complete(main())
+        finally:
+            sessions.close_loop(loop)
+
+    @staticmethod
     def refusal_oracle(case, obs):
         if obs['ran']:
             return f"a handler ran although the session cost had reached the hard limit: {obs['ran']}"
@@ -459,6 +510,19 @@ class C14(Prop):
                                        f"a protocol violation raised the error count by {v['d_errors']} and the cost by {v['d_cost']:.3f}: "
                                        f"every protocol violation counts as one error and costs at least the base error cost ({vobs['error_base_cost']})"))
                     break
+        nf = 0
+        for transport in ('rs', 'us'):
+            fobs = self.failing_requests_scenario(transport)
+            for v in fobs['steps']:
+                nf += 1
+                ctx['extra_evals'] += 1
+                if v['d_errors'] != v['failed'] or v['d_cost'] < v['due_error_cost'] * (1 - 1e-9) or v['d_cost'] > v['due_error_cost'] + 5:
+                    out.append(Failure({'failing_requests': True, 'transport': transport, 'shape': v['shape']}, v,
+                                       f"{v['failed']} failed requests ({'a batch' if len(v['shape']) > 1 else 'alone'}) raised the error count by {v['d_errors']} and "
+                                       f"the cost by {v['d_cost']:.3f}; every failed request counts as one error and costs the base error cost plus "
+                                       f"the cost its error carries ({v['due_error_cost']} here, plus bandwidth)"))
+                    break
+        ctx['notes'].append(f'failing requests alone, as notifications and as batch members in every position through a real RPCSession: {nf} messages')
         ctx['notes'].append(f'protocol violations of every kind (with and without a reply) through a real RPCSession: {nv} messages, each counted and charged')
         # the same for a MessageSession: checksum, magic and size errors are charged the base cost plus the cost their class carries
         from harness.props.c07 import C07 as _C07
